@@ -553,13 +553,29 @@ Definition e_close (cfg : ecfg) (g : engine) : engine * list eout :=
   ({| g_st := closed (g_st g); g_acc := g_acc g; g_hb := g_hb g |},
    [OCork false; OClose (if c_cork cfg then Some 500 else None)]).
 
-Inductive einput := INet (data : bytes) (now : N) | IApp (msgs : list frame) | ITick (now : N) | IClose.
+(* record_activity(): called by the session after every successful outbound write (sessionx/actor.rs);
+   stamps the activity time unconditionally *)
+Definition e_wrote (cfg : ecfg) (g : engine) (now : N) : engine * list eout :=
+  ({| g_st := g_st g; g_acc := g_acc g;
+      g_hb := {| h_last_activity := now; h_last_ping := h_last_ping (g_hb g); h_waiting := h_waiting (g_hb g) |} |}, []).
+
+(* get_pong_deadline(): the session's sleep_until backstop - PING time + timeout (30 s when unset) *)
+Definition e_pong_deadline (cfg : ecfg) (g : engine) : option N :=
+  if h_waiting (g_hb g) then
+    match h_last_ping (g_hb g) with
+    | Some p => Some (p + match c_hb_timeout cfg with Some t => t | None => 30000000000 end)
+    | None => None
+    end
+  else None.
+
+Inductive einput := INet (data : bytes) (now : N) | IApp (msgs : list frame) | ITick (now : N) | IClose | IWrote (now : N).
 Definition e_input (cfg : ecfg) (g : engine) (i : einput) : engine * list eout :=
   match i with
   | INet d t => e_net cfg g d t
   | IApp m => e_app cfg g m
   | ITick t => e_tick cfg g t
   | IClose => e_close cfg g
+  | IWrote t => e_wrote cfg g t
   end.
 Fixpoint e_run (cfg : ecfg) (g : engine) (is : list einput) : engine * list (list eout) :=
   match is with
